@@ -205,6 +205,133 @@ fn canon_ops(mut ops: Vec<Val>) -> Vec<Val> {
     ops
 }
 
+
+fn disp_of(v: &Val) -> table::Disposition {
+    match v.int() {
+        0 => table::Disposition::Pass,
+        1 => table::Disposition::Accept,
+        _ => table::Disposition::Reject,
+    }
+}
+
+fn policy_of(v: &Val) -> table::PolicyAssignment {
+    let nexthop = v.at(0).list().first().map(|a| match a.at(0).int() {
+        0 => table::NexthopAction::Address(ip_of(a.at(1))),
+        1 => table::NexthopAction::PeerSelf,
+        2 => table::NexthopAction::PeerAddress,
+        _ => table::NexthopAction::Unchanged,
+    });
+    let med = v.at(1).list().first().map(|a| table::MedAction {
+        action_type: if a.at(0).int() == 0 {
+            table::MedActionType::Mod
+        } else {
+            table::MedActionType::Replace
+        },
+        value: a.at(1).int() as i64,
+    });
+    let stmt = table::Statement {
+        name: Arc::from("verif-stmt"),
+        conditions: vec![],
+        disposition: match disp_of(v.at(2)) {
+            table::Disposition::Pass => None,
+            d => Some(d),
+        },
+        actions: table::Actions {
+            nexthop,
+            community: None,
+            local_pref: None,
+            med,
+            as_prepend: None,
+            ext_community: None,
+            large_community: None,
+            origin: None,
+        },
+    };
+    let pol = table::Policy {
+        name: Arc::from("verif-policy"),
+        statements: vec![Arc::new(stmt)],
+    };
+    table::PolicyAssignment {
+        name: Arc::from("verif-assignment"),
+        disposition: disp_of(v.at(3)),
+        policies: vec![Arc::new(pol)],
+        needs_rpki: false,
+    }
+}
+
+fn run_process(case: &Val, policy: Option<&table::PolicyAssignment>) -> Val {
+    let ctx = ctx_of(case.at(1));
+    let emax = case.at(2).usize();
+    let raddr = ip_of(case.at(3));
+    let cid = cid_of(case.at(4));
+    let ch = case.at(5);
+    let family = family_of(ch.at(0));
+    let dest_id = ch.at(1).u32();
+    let paths: Vec<table::Path> = ch
+        .at(5)
+        .list()
+        .iter()
+        .map(|p| table::Path {
+            local_path_id: p.at(0).u32(),
+            source: src_of(p.at(1)),
+            nexthop: nh_opt_of(p.at(2)),
+            attr: attrs_of(p.at(3)),
+        })
+        .collect();
+    let update = table::NlriChange {
+        family,
+        net: "10.9.0.0/24".parse().unwrap(),
+        dest_id,
+        best_changed: ch.at(2).bool(),
+        any_changed: ch.at(3).bool(),
+        replaced_path_id: ch.at(4).list().first().map(|x| x.u32()),
+        current_paths: Arc::new(paths),
+    };
+    let em = case.at(6);
+    let mut map = match em.at(0).int() {
+        0 => ExportMap::new([]),
+        1 => {
+            let mut m = ExportMap::new([]);
+            // a Plain family map exists only after a first mark_sent
+            let ds = em.at(1).list();
+            if ds.is_empty() {
+                m.mark_sent(family, 0xffff_fff0, 0);
+                m.mark_withdrawn(family, 0xffff_fff0, 0);
+            }
+            for d in ds {
+                m.mark_sent(family, d.u32(), 0);
+            }
+            m
+        }
+        _ => {
+            let mut m = ExportMap::new([family]);
+            for kv in em.at(1).list() {
+                for pid in kv.at(1).list() {
+                    m.mark_sent(family, kv.at(0).u32(), pid.u32());
+                }
+            }
+            m
+        }
+    };
+    let mut sink = RecSink { ops: Vec::new() };
+    process_nlri_change(
+        &update, emax, raddr, &mut map, &mut sink, &ctx, policy, cid, None, None, None,
+    );
+    let probe: Vec<Val> = case
+        .at(7)
+        .list()
+        .iter()
+        .map(|d| {
+            let mut ids: Vec<u32> =
+                map.sent_path_ids(family, d.u32()).into_iter().collect();
+            ids.sort();
+            Val::L(ids.into_iter().map(Val::n).collect())
+        })
+        .collect();
+    Val::L(vec![Val::L(canon_ops(sink.ops)), Val::L(probe)])
+
+}
+
 // ---- cases ------------------------------------------------------------------
 
 fn as_path_attr(a: &Val) -> packet::Attribute {
@@ -267,76 +394,14 @@ fn run_case(case: &Val) -> Val {
         //   change = [family, dest, best_changed, any_changed, replaced(opt), paths]
         //   path   = [lpid, source, nh(opt), attrs]
         //   emap   = [0] | [1, dests] | [2, [[dest, [pids]]..]]
-        9 => {
-            let ctx = ctx_of(case.at(1));
-            let emax = case.at(2).usize();
-            let raddr = ip_of(case.at(3));
-            let cid = cid_of(case.at(4));
-            let ch = case.at(5);
-            let family = family_of(ch.at(0));
-            let dest_id = ch.at(1).u32();
-            let paths: Vec<table::Path> = ch
-                .at(5)
-                .list()
-                .iter()
-                .map(|p| table::Path {
-                    local_path_id: p.at(0).u32(),
-                    source: src_of(p.at(1)),
-                    nexthop: nh_opt_of(p.at(2)),
-                    attr: attrs_of(p.at(3)),
-                })
-                .collect();
-            let update = table::NlriChange {
-                family,
-                net: "10.9.0.0/24".parse().unwrap(),
-                dest_id,
-                best_changed: ch.at(2).bool(),
-                any_changed: ch.at(3).bool(),
-                replaced_path_id: ch.at(4).list().first().map(|x| x.u32()),
-                current_paths: Arc::new(paths),
-            };
-            let em = case.at(6);
-            let mut map = match em.at(0).int() {
-                0 => ExportMap::new([]),
-                1 => {
-                    let mut m = ExportMap::new([]);
-                    // a Plain family map exists only after a first mark_sent
-                    let ds = em.at(1).list();
-                    if ds.is_empty() {
-                        m.mark_sent(family, 0xffff_fff0, 0);
-                        m.mark_withdrawn(family, 0xffff_fff0, 0);
-                    }
-                    for d in ds {
-                        m.mark_sent(family, d.u32(), 0);
-                    }
-                    m
-                }
-                _ => {
-                    let mut m = ExportMap::new([family]);
-                    for kv in em.at(1).list() {
-                        for pid in kv.at(1).list() {
-                            m.mark_sent(family, kv.at(0).u32(), pid.u32());
-                        }
-                    }
-                    m
-                }
-            };
-            let mut sink = RecSink { ops: Vec::new() };
-            process_nlri_change(
-                &update, emax, raddr, &mut map, &mut sink, &ctx, None, cid, None, None, None,
-            );
-            let probe: Vec<Val> = case
-                .at(7)
-                .list()
-                .iter()
-                .map(|d| {
-                    let mut ids: Vec<u32> =
-                        map.sent_path_ids(family, d.u32()).into_iter().collect();
-                    ids.sort();
-                    Val::L(ids.into_iter().map(Val::n).collect())
-                })
-                .collect();
-            Val::L(vec![Val::L(canon_ops(sink.ops)), Val::L(probe)])
+        9 => run_process(case, None),
+        // [12, ..as 9.., policy]: the same with a real one-statement export policy
+        //   policy = [nh_action(opt), med_action(opt), statement disposition, default disposition]
+        //   nh_action = [0, ip] | [1] self | [2] peer | [3] unchanged; med_action = [0, delta] | [1, value]
+        //   disposition: 0 pass, 1 accept, 2 reject
+        12 => {
+            let pa = policy_of(case.at(8));
+            run_process(case, Some(&pa))
         }
         // [10, ctx, router_id, cid, attrs]: the receive path for one reach UPDATE.
         // run_select skips the message when is_as_loop (that `continue` is glue
